@@ -81,8 +81,8 @@ CLAIMED = {
     "C01": (
         "proof",
         "Coq theorems on the whole-pipeline Gallina model (every unguarded Python read modelled as a raising read, every loop on explicit fuel) + whole-pipeline differential correspondence incl. exception class and termination + totality exploration of the implementation",
-        "The model of parse/render (block parser, inline parser, core chain, renderer; coq/Model) raises exactly where an unguarded read of the Python source would and runs every loop on fuel, so 'total' is the statement 'never Raise, never OutOfFuel'. Proved for ALL inputs so far (partial): THE BLOCK PARSER NEVER RAISES - for every source, env and token list and every configuration with options.html off that has the paragraph rule and Ruler-shaped terminator chains, ParserBlock.parse returns no exception: every line-table read is in range and every unguarded src[...] read hits a character (C01_block_parse_never_raises; Lemmas/NoRaise.v). The proof carries a table invariant (table lengths, marks inside the source, a line feed at every end mark but the last line's, a non-blank at the logical start of a non-empty line, C01_fresh_tables_invariant) through all 11 rules, getLines, the terminator chains, the nested tokenize at any depth and the line loop; block quote and list rewrites keep it and their restores give back the ORIGINAL tables literally (C01_nested_tokenize_restores_tables); the terminator hypothesis holds for Ruler configurations of the generated rule table (C01_ruler_cfg_term_names_ok). With options.html on one read remains unproved (the last body line of an html_block inside nested containers needs the tab-column arithmetic); the inline parser and the core rules are not covered by this theorem. Also: the block line loop makes progress - one pass over any rule chain containing paragraph ends with some rule succeeded and the cursor strictly advanced inside the line table, and the nested tokenize of block quotes / list items advances too (C01_block_loop_progress, C01_nested_tokenize_progress; Lemmas/MapWhole.v), so the loop cannot spin and 'none of the block rules matched' cannot happen;  numeric character references only reach chr() with a valid code point (C01_entity_chr_safe, C01_entity_codes_nonneg), the renderer never raises on any token list (C01_render_total), skipToken never recurses past maxNesting (C01_skip_token_cap), reads of the line tables inside their range succeed (C01_table_read_in_range) and every read of a fresh StateBlock's tables at a line in [0, lineMax] succeeds for every source (C01_fresh_tables_readable). The whole-pipeline totality theorem is NOT proved: per-rule safety is decided each run by comparing model and implementation on exception class and termination over ~500 (quick) (configuration, API, document) cases, and by exploring the implementation: generated documents x configuration lattice x 4 APIs, ALL pairs of 53 line shapes and sampled 3-4 line sequences, truncated seeds, 40 deep-nesting/long-run families, Unicode white space at every trimming/splitting site, CLI on arbitrary bytes, the documented TypeErrors - each under a wall-clock limit.",
-        "Trusted: Coq kernel; hand model tied to the code by sampled correspondence; totality of the inline parser / core rules and of the html-on block parser is exploration, not a theorem (partial); re/str primitives assumed non-raising on str; linkify-it-py absent.",
+        "The model of parse/render (block parser, inline parser, core chain, renderer; coq/Model) raises exactly where an unguarded read of the Python source would and runs every loop on fuel, so 'total' is the statement 'never Raise, never OutOfFuel'. Proved for ALL inputs so far (partial): THE BLOCK PARSER NEVER RAISES - for every source, env and token list and every configuration (options.html on or off, any maxNesting, any enabled subset) that has the paragraph rule and Ruler-shaped terminator chains, ParserBlock.parse returns no exception: every line-table read is in range and every unguarded src[...] read hits a character (C01_block_parse_never_raises; Lemmas/NoRaise.v). The proof carries a table invariant (table lengths, marks inside the source, a line feed at every end mark but the last line's, a non-blank at the logical start of a non-empty line, C01_fresh_tables_invariant) through all 11 rules, getLines, the terminator chains, the nested tokenize at any depth and the line loop; block quote and list rewrites keep it and their restores give back the ORIGINAL tables literally (C01_nested_tokenize_restores_tables); the terminator hypothesis holds for Ruler configurations of the generated rule table (C01_ruler_cfg_term_names_ok). A second invariant (C01_fresh_tables_columns: every sCount entry is at most the columns getLines itself counts over the line's leading blanks) is carried through block quote and list rewrites; it is what makes html_block's getLines(.., blkIndent, True) safe on a blank last line inside containers. The inline parser and the core rules are not covered by this theorem. Also: the block line loop makes progress - one pass over any rule chain containing paragraph ends with some rule succeeded and the cursor strictly advanced inside the line table, and the nested tokenize of block quotes / list items advances too (C01_block_loop_progress, C01_nested_tokenize_progress; Lemmas/MapWhole.v), so the loop cannot spin and 'none of the block rules matched' cannot happen;  numeric character references only reach chr() with a valid code point (C01_entity_chr_safe, C01_entity_codes_nonneg), the renderer never raises on any token list (C01_render_total), skipToken never recurses past maxNesting (C01_skip_token_cap), reads of the line tables inside their range succeed (C01_table_read_in_range) and every read of a fresh StateBlock's tables at a line in [0, lineMax] succeeds for every source (C01_fresh_tables_readable). The whole-pipeline totality theorem is NOT proved: per-rule safety is decided each run by comparing model and implementation on exception class and termination over ~500 (quick) (configuration, API, document) cases, and by exploring the implementation: generated documents x configuration lattice x 4 APIs, ALL pairs of 53 line shapes and sampled 3-4 line sequences, truncated seeds, 40 deep-nesting/long-run families, Unicode white space at every trimming/splitting site, CLI on arbitrary bytes, the documented TypeErrors - each under a wall-clock limit.",
+        "Trusted: Coq kernel; hand model tied to the code by sampled correspondence; totality of the inline parser / core rules is exploration, not a theorem (partial); re/str primitives assumed non-raising on str; linkify-it-py absent.",
         "DESIGN.md §3 C01",
     ),
     "C02": (
